@@ -236,6 +236,15 @@ func (r *c10Run) methods(parked uint64) []method {
 		{"crosschain.bridgeCall", cc, func(self common.Address) []byte {
 			return fix.PackCrosschain("bridgeCall", cn, e.Caller.Hex(), []common.Address{e.USDT.ERC20}, []*big.Int{big.NewInt(300)}, e.Other.Hex(), []byte{1}, big.NewInt(0), []byte{})
 		}, nil},
+		{"crosschain.bridgeCall(refund=victim)", cc, func(self common.Address) []byte {
+			return fix.PackCrosschain("bridgeCall", cn, e.Victim.Hex(), []common.Address{e.USDT.ERC20}, []*big.Int{big.NewInt(300)}, e.Other.Hex(), []byte{1}, big.NewInt(0), []byte{})
+		}, nil},
+		{"crosschain.bridgeCall(fx by value, refund=victim)", cc, func(self common.Address) []byte {
+			return fix.PackCrosschain("bridgeCall", cn, e.Victim.Hex(), []common.Address{}, []*big.Int{}, e.Other.Hex(), []byte{1}, big.NewInt(0), []byte{})
+		}, big.NewInt(100)},
+		{"crosschain.bridgeCall(to=victim, refund=victim)", cc, func(self common.Address) []byte {
+			return fix.PackCrosschain("bridgeCall", cn, e.Victim.Hex(), []common.Address{e.USDT.ERC20}, []*big.Int{big.NewInt(300)}, e.Victim.Hex(), []byte{}, big.NewInt(0), []byte{})
+		}, nil},
 		{"crosschain.cancelSendToExternal(victim id)", cc, func(common.Address) []byte {
 			return fix.PackCrosschain("cancelSendToExternal", cn, new(big.Int).SetUint64(e.VictimTxIDs[0]))
 		}, nil},
